@@ -182,6 +182,22 @@ def run(R, tier, seed, driver_ok):
             illc = True
             sc = 10.0 ** -np.sort(rng.uniform(0, 5.5, size=d)); sc[0] = 1.0
             X = X * sc; pairs = pairs * sc; Xd = Xd * sc
+        # an array is used AS GIVEN — every time: the same array object handed to two fits (and to two estimators) starts both
+        # from the matrix it holds, and still holds it afterwards
+        S_keep = S.copy()
+        for nm_, mk_ in (('ITML', lambda A_: ITML(prior=A_, max_iter=25).fit(pairs, yyd)), ('MMC', lambda A_: MMC(init=A_, max_iter=6).fit(pairs, yyd))):
+            R.case(('c20-array-twice', nm_, S.tobytes().hex()[:40]), True, branch='init-array-twice')
+            try:
+                with warnings.catch_warnings():
+                    warnings.simplefilter('ignore')
+                    m1 = mk_(S).get_mahalanobis_matrix(); m2 = mk_(S).get_mahalanobis_matrix()
+                if not np.array_equal(S, S_keep):
+                    R.violation(f'init/array/{nm_}-overwrites-the-array', f'{nm_}: fit wrote into the array given as prior / init', {'prior': S_keep})
+                    S = S_keep.copy()
+                if np.abs(m1 - m2).max() > 1e-12 * max(np.abs(m1).max(), 1e-300):
+                    R.violation(f'init/array/{nm_}-second-fit-differs', f'{nm_}: the same array given to a second fit gives another matrix (max diff {np.abs(m1 - m2).max():.3g}): it is not used as given', {'prior': S_keep})
+            except Exception as e:
+                R.violation(f'init/array/{nm_}-{type(e).__name__}', f'{nm_} with an SPD array raised {type(e).__name__}: {str(e)[:100]}', {'prior': S_keep})
         for opt in ['identity', 'covariance', 'random', 'array']:
             prior = S if opt == 'array' else opt
             seedp = int(rng.randint(1 << 30))
